@@ -206,6 +206,16 @@ def run(case, ctx):
             out.label('byte-strings')
         except UnicodeEncodeError:
             pass
+    if (isinstance(given, list) and len(given) % 3 == 0 and given
+            and not case.get('bytes') and case.get('freqs') is None
+            and not isinstance(case.get('size'), dict)):
+        # (not under a sampling Size: there the function samples the
+        # strings as given, before rexpy has merged those that clean to one)
+        # the third documented input form: a check function over the same
+        # strings (as given: cleaning them is rexpy's part)
+        from tv.props.c14 import check_function_for
+        given = check_function_for(given, [])
+        out.label('check-function')
     ok, x = call(rexpy.extract, given, as_object=True, **kw)
     if not ok:
         out.violate('never-raises', x.bucket(), x.detail())
